@@ -30,13 +30,307 @@ func IsSendBuf(info *types.Info, e ast.Expr) bool {
 	return core.IsFieldNamed(info, e, Syncer, "sendBuf")
 }
 
-// Enq is one `ds.sendBuf <- cmdDetail{...}` statement of the parser.
+// Enq is one enqueue of the parser: a `ds.sendBuf <- cmdDetail{...}` statement
+// in parseSourceCommand itself, or a call of a helper of the package (function
+// or closure bound to a local) whose body is that one statement. Field holds
+// the literal's values in the vocabulary of parseSourceCommand (helper
+// parameters replaced by the call's arguments, one-line helpers inlined).
 type Enq struct {
 	Stmt   *ast.SendStmt
+	Call   *ast.CallExpr // the helper call in the parser (nil for a direct send)
 	Pt     cfgq.Point
 	Field  map[string]ast.Expr // Cmd, Args, Offset, Db
 	InLoop bool
 	Name   string // stable name: "start-db", "select", "command"
+}
+
+// Pos is the position of the enqueue in parseSourceCommand.
+func (e *Enq) Pos() token.Pos {
+	if e.Call != nil {
+		return e.Call.Pos()
+	}
+	return e.Stmt.Pos()
+}
+
+// FieldIs is core.IsFieldNamed that also accepts selector nodes synthesised by
+// flow.Resolve (no Selections entry): the field is then found through the
+// type of the base expression.
+func FieldIs(info *types.Info, e ast.Expr, typ, field string) bool {
+	x, ok := ast.Unparen(e).(*ast.SelectorExpr)
+	if !ok || x.Sel.Name != field {
+		return false
+	}
+	if _, ok := info.Selections[x]; ok {
+		return core.IsFieldNamed(info, e, typ, field)
+	}
+	t := info.TypeOf(x.X)
+	if t == nil {
+		return false
+	}
+	if core.NamedTypeName(t) != typ {
+		return false
+	}
+	if p, ok := t.(*types.Pointer); ok {
+		t = p.Elem()
+	}
+	st, ok := t.Underlying().(*types.Struct)
+	if !ok {
+		return false
+	}
+	for i := 0; i < st.NumFields(); i++ {
+		if st.Field(i).Name() == field {
+			return true
+		}
+	}
+	return false
+}
+
+// Project replaces `CompositeLit{f: v, ...}.f` by v (after flow.Resolve turned
+// a struct-valued local or parameter into its literal).
+func Project(e ast.Expr) ast.Expr {
+	sel, ok := ast.Unparen(e).(*ast.SelectorExpr)
+	if !ok {
+		return e
+	}
+	x := Project(sel.X)
+	if u, ok := ast.Unparen(x).(*ast.UnaryExpr); ok && u.Op == token.AND {
+		x = u.X
+	}
+	lit, ok := ast.Unparen(x).(*ast.CompositeLit)
+	if !ok {
+		return e
+	}
+	for _, el := range lit.Elts {
+		if kv, ok := el.(*ast.KeyValueExpr); ok {
+			if id, ok := kv.Key.(*ast.Ident); ok && id.Name == sel.Sel.Name {
+				return kv.Value
+			}
+		}
+	}
+	return e
+}
+
+// LocalClosure returns the function literal that the identifier fun denotes
+// when fun is a local variable with exactly one definition, a literal.
+func LocalClosure(info *types.Info, scope ast.Node, fun ast.Expr) *ast.FuncLit {
+	id, ok := ast.Unparen(fun).(*ast.Ident)
+	if !ok {
+		return nil
+	}
+	v, ok := core.ObjOf(info, id).(*types.Var)
+	if !ok || v.IsField() {
+		return nil
+	}
+	o, ok := SoleOrigin(info, scope, id)
+	if !ok || o.Expr == nil || o.Op != 0 || o.Range || o.Res > 0 {
+		return nil
+	}
+	fl, _ := ast.Unparen(o.Expr).(*ast.FuncLit)
+	return fl
+}
+
+// Binding maps the parameters (and the receiver) of a helper to the argument
+// expressions of one call, in the caller's vocabulary.
+type Binding map[types.Object]ast.Expr
+
+// BindCall builds the binding of a call of a function with the given
+// signature syntax (cinfo is the type info of the callee's package).
+func BindCall(call *ast.CallExpr, ft *ast.FuncType, recv *ast.FieldList, cinfo *types.Info) Binding {
+	bind := Binding{}
+	i := 0
+	for _, fl := range ft.Params.List {
+		if len(fl.Names) == 0 {
+			i++
+			continue
+		}
+		for _, nm := range fl.Names {
+			if o := cinfo.Defs[nm]; o != nil {
+				if _, variadic := fl.Type.(*ast.Ellipsis); variadic {
+					if call.Ellipsis.IsValid() && i == len(call.Args)-1 {
+						bind[o] = call.Args[i]
+					}
+				} else if i < len(call.Args) {
+					bind[o] = call.Args[i]
+				}
+			}
+			i++
+		}
+	}
+	if recv != nil && len(recv.List) == 1 && len(recv.List[0].Names) == 1 {
+		if sel, ok := ast.Unparen(call.Fun).(*ast.SelectorExpr); ok {
+			if o := cinfo.Defs[recv.List[0].Names[0]]; o != nil {
+				bind[o] = sel.X
+			}
+		}
+	}
+	return bind
+}
+
+// Subst rewrites e (an expression of a helper body, scope) into the caller's
+// vocabulary: bound parameters become the call's arguments, single-definition
+// locals of the helper become their definition. Sub-trees without such
+// identifiers are kept as they are (with their type information).
+func Subst(info *types.Info, scope ast.Node, e ast.Expr, bind Binding) ast.Expr {
+	return subst(info, scope, e, bind, 0)
+}
+
+func subst(info *types.Info, scope ast.Node, e ast.Expr, bind Binding, depth int) ast.Expr {
+	if e == nil || depth > 12 {
+		return e
+	}
+	r := func(x ast.Expr) ast.Expr { return subst(info, scope, x, bind, depth+1) }
+	switch v := e.(type) {
+	case *ast.ParenExpr:
+		return r(v.X)
+	case *ast.Ident:
+		obj := core.ObjOf(info, v)
+		if a, ok := bind[obj]; ok {
+			return a
+		}
+		if lv, ok := obj.(*types.Var); ok && !lv.IsField() && scope != nil && scope.Pos() <= lv.Pos() && lv.Pos() < scope.End() {
+			if o, ok := SoleOrigin(info, scope, v); ok && o.Expr != nil && o.Op == 0 && !o.Range && o.Res <= 0 && !o.Param && ast.Unparen(o.Expr) != ast.Expr(v) {
+				if _, isCall := ast.Unparen(o.Expr).(*ast.CallExpr); !isCall || o.Res < 0 {
+					return r(o.Expr)
+				}
+			}
+		}
+		return v
+	case *ast.SelectorExpr:
+		if id, ok := ast.Unparen(v.X).(*ast.Ident); ok {
+			if _, isPkg := core.ObjOf(info, id).(*types.PkgName); isPkg {
+				return v
+			}
+		}
+		if nx := r(v.X); nx != v.X {
+			return Project(&ast.SelectorExpr{X: nx, Sel: v.Sel})
+		}
+		return v
+	case *ast.BinaryExpr:
+		if a, b := r(v.X), r(v.Y); a != v.X || b != v.Y {
+			return &ast.BinaryExpr{X: a, Op: v.Op, OpPos: v.OpPos, Y: b}
+		}
+	case *ast.UnaryExpr:
+		if a := r(v.X); a != v.X {
+			return &ast.UnaryExpr{Op: v.Op, OpPos: v.OpPos, X: a}
+		}
+	case *ast.StarExpr:
+		if a := r(v.X); a != v.X {
+			return &ast.StarExpr{Star: v.Star, X: a}
+		}
+	case *ast.IndexExpr:
+		if a, b := r(v.X), r(v.Index); a != v.X || b != v.Index {
+			return &ast.IndexExpr{X: a, Lbrack: v.Lbrack, Index: b, Rbrack: v.Rbrack}
+		}
+	case *ast.SliceExpr:
+		a, l, h, m := r(v.X), r(v.Low), r(v.High), r(v.Max)
+		if a != v.X || l != v.Low || h != v.High || m != v.Max {
+			return &ast.SliceExpr{X: a, Lbrack: v.Lbrack, Low: l, High: h, Max: m, Slice3: v.Slice3, Rbrack: v.Rbrack}
+		}
+	case *ast.TypeAssertExpr:
+		if a := r(v.X); a != v.X {
+			return &ast.TypeAssertExpr{X: a, Type: v.Type}
+		}
+	case *ast.CallExpr:
+		fun := v.Fun
+		if sel, ok := ast.Unparen(v.Fun).(*ast.SelectorExpr); ok {
+			if nf := r(sel); nf != ast.Expr(sel) {
+				fun = nf
+			}
+		}
+		changed := fun != v.Fun
+		args := make([]ast.Expr, len(v.Args))
+		for i, a := range v.Args {
+			args[i] = r(a)
+			changed = changed || args[i] != a
+		}
+		if changed {
+			return &ast.CallExpr{Fun: fun, Lparen: v.Lparen, Args: args, Ellipsis: v.Ellipsis, Rparen: v.Rparen}
+		}
+	case *ast.CompositeLit:
+		changed := false
+		elts := make([]ast.Expr, len(v.Elts))
+		for i, el := range v.Elts {
+			if kv, ok := el.(*ast.KeyValueExpr); ok {
+				if nv := r(kv.Value); nv != kv.Value {
+					elts[i], changed = &ast.KeyValueExpr{Key: kv.Key, Colon: kv.Colon, Value: nv}, true
+				} else {
+					elts[i] = el
+				}
+				continue
+			}
+			elts[i] = r(el)
+			changed = changed || elts[i] != el
+		}
+		if changed {
+			return &ast.CompositeLit{Type: v.Type, Lbrace: v.Lbrace, Elts: elts, Rbrace: v.Rbrace}
+		}
+	}
+	return e
+}
+
+// Helper describes a callee whose body can be looked into: a function declared
+// in the package pkgPath of the module, or a closure bound to a local of scope.
+type Helper struct {
+	Body *ast.BlockStmt
+	Type *ast.FuncType
+	Recv *ast.FieldList
+	Info *types.Info
+	Fn   *core.Fn     // declared function (nil for a closure)
+	Lit  *ast.FuncLit // closure (nil for a declared function)
+}
+
+// Graph returns the control-flow graph of the helper.
+func (h *Helper) Graph(p *core.Program) *cfgq.Graph {
+	if h.Lit != nil {
+		return cfgq.OfLit(p, h.Info, h.Lit)
+	}
+	return cfgq.Of(p, h.Fn)
+}
+
+// HelperOf resolves the callee of call to a helper that may be followed.
+func HelperOf(p *core.Program, info *types.Info, scope ast.Node, call *ast.CallExpr, pkgPath string) *Helper {
+	if scope != nil {
+		if fl := LocalClosure(info, scope, call.Fun); fl != nil {
+			return &Helper{Body: fl.Body, Type: fl.Type, Info: info, Lit: fl}
+		}
+	}
+	f := core.CalleeFunc(info, call)
+	if f == nil || f.Pkg() == nil || f.Pkg().Path() != pkgPath {
+		return nil
+	}
+	hf := p.FnOf(f)
+	if hf == nil || hf.Decl.Body == nil {
+		return nil
+	}
+	return &Helper{Body: hf.Decl.Body, Type: hf.Decl.Type, Recv: hf.Decl.Recv, Info: hf.Pkg.TypesInfo, Fn: hf}
+}
+
+// InlineOneLiners replaces, inside e, calls of helpers whose body is a single
+// `return <expr>` by that expression in the caller's vocabulary.
+func InlineOneLiners(p *core.Program, info *types.Info, scope ast.Node, e ast.Expr, pkgPath string, depth int) ast.Expr {
+	if e == nil || depth > 3 {
+		return e
+	}
+	switch x := ast.Unparen(e).(type) {
+	case *ast.CallExpr:
+		if h := HelperOf(p, info, scope, x, pkgPath); h != nil && len(h.Body.List) == 1 && !x.Ellipsis.IsValid() {
+			if ret, ok := h.Body.List[0].(*ast.ReturnStmt); ok && len(ret.Results) == 1 {
+				args := make([]ast.Expr, len(x.Args))
+				for i, a := range x.Args {
+					args[i] = InlineOneLiners(p, info, scope, a, pkgPath, depth+1)
+				}
+				call := &ast.CallExpr{Fun: x.Fun, Args: args, Lparen: x.Lparen, Rparen: x.Rparen}
+				r := Subst(h.Info, h.Body, ret.Results[0], BindCall(call, h.Type, h.Recv, h.Info))
+				return InlineOneLiners(p, info, scope, r, pkgPath, depth+1)
+			}
+		}
+	case *ast.BinaryExpr:
+		a, b := InlineOneLiners(p, info, scope, x.X, pkgPath, depth), InlineOneLiners(p, info, scope, x.Y, pkgPath, depth)
+		if a != x.X || b != x.Y {
+			return &ast.BinaryExpr{X: a, Op: x.Op, OpPos: x.OpPos, Y: b}
+		}
+	}
+	return e
 }
 
 // Parser is the model of parseSourceCommand.
@@ -116,29 +410,27 @@ func AnalyseParser(c *core.Ctx) *Parser {
 	p.DecodePt = pt
 	nsel := 0
 	bad := false
-	core.Inspect(body, func(n ast.Node) bool {
-		s, ok := n.(*ast.SendStmt)
-		if !ok || !IsSendBuf(p.Info, s.Chan) {
-			return true
-		}
-		e := &Enq{Stmt: s, Field: map[string]ast.Expr{}}
-		e.Pt, ok = p.G.Find(s)
-		lit, isLit := ast.Unparen(s.Value).(*ast.CompositeLit)
-		if !ok || !isLit || core.NamedTypeName(p.Info.TypeOf(lit)) != CmdType {
-			c.Undecidedf("model", "parser/enqueue-shape", s.Pos(), "enqueued value is not a cmdDetail{...} literal: %s", c.Src(s))
+	pkgPath := fn.Pkg.PkgPath
+	addEnq := func(e *Enq, at ast.Node, lit *ast.CompositeLit, resolve func(ast.Expr) ast.Expr) {
+		var ok bool
+		e.Pt, ok = p.G.Find(at)
+		if lit != nil && p.Info.TypeOf(lit) == nil && lit.Type != nil && core.NamedTypeName(p.Info.TypeOf(lit.Type)) == CmdType {
+			// a literal rebuilt by Subst: typed by its type expression
+		} else if !ok || lit == nil || core.NamedTypeName(p.Info.TypeOf(lit)) != CmdType {
+			c.Undecidedf("model", "parser/enqueue-shape", at.Pos(), "enqueued value is not a cmdDetail{...} literal: %s", c.Src(at))
 			bad = true
-			return true
+			return
 		}
 		for _, el := range lit.Elts {
 			kv, ok := el.(*ast.KeyValueExpr)
 			if !ok {
-				c.Undecidedf("model", "parser/enqueue-shape", s.Pos(), "cmdDetail literal without field names")
+				c.Undecidedf("model", "parser/enqueue-shape", at.Pos(), "cmdDetail literal without field names")
 				bad = true
-				return true
+				return
 			}
-			e.Field[kv.Key.(*ast.Ident).Name] = kv.Value
+			e.Field[kv.Key.(*ast.Ident).Name] = InlineOneLiners(c.Program, p.Info, fn.Decl, resolve(kv.Value), pkgPath, 0)
 		}
-		e.InLoop = p.Loop.Pos() <= s.Pos() && s.End() <= p.Loop.End()
+		e.InLoop = p.Loop.Pos() <= at.Pos() && at.End() <= p.Loop.End()
 		isSel := false
 		if v, ok := core.StringConst(p.Info, e.Field["Cmd"]); ok && strings.EqualFold(v, "select") {
 			isSel = true
@@ -153,6 +445,53 @@ func AnalyseParser(c *core.Ctx) *Parser {
 			e.Name = "command"
 		}
 		p.Sends = append(p.Sends, e)
+	}
+	isQueueSend := func(info *types.Info, m ast.Node) bool {
+		s, ok := m.(*ast.SendStmt)
+		return ok && IsSendBuf(info, s.Chan)
+	}
+	core.Inspect(body, func(n ast.Node) bool {
+		switch x := n.(type) {
+		case *ast.SendStmt:
+			if !IsSendBuf(p.Info, x.Chan) {
+				return true
+			}
+			lit, _ := ast.Unparen(x.Value).(*ast.CompositeLit)
+			addEnq(&Enq{Stmt: x, Field: map[string]ast.Expr{}}, x, lit, func(v ast.Expr) ast.Expr { return v })
+		case *ast.CallExpr:
+			// a helper (declared in the package, or a closure bound to a local) whose body is one enqueue
+			h := HelperOf(c.Program, p.Info, fn.Decl, x, pkgPath)
+			if h == nil {
+				return true
+			}
+			hbody, hinfo, hg := h.Body, h.Info, h.Graph(c.Program)
+			var sends []*ast.SendStmt
+			core.InspectAll(hbody, func(m ast.Node) bool {
+				if isQueueSend(hinfo, m) {
+					sends = append(sends, m.(*ast.SendStmt))
+				}
+				return true
+			})
+			if len(sends) == 0 {
+				return true
+			}
+			_, ok := hg.Find(sends[0])
+			once := len(sends) == 1 && ok && !InLoop(hbody, sends[0]) && !x.Ellipsis.IsValid()
+			if once {
+				isS := func(m ast.Node) bool { return m == ast.Node(sends[0]) }
+				must, _ := hg.MustPassToExit(hg.Entry(), false, isS)
+				once = must
+			}
+			if !once {
+				c.Undecidedf("model", "parser/enqueue-shape", x.Pos(), "the helper called by `%s` does not enqueue exactly once on every path", c.Src(x))
+				bad = true
+				return true
+			}
+			bind := BindCall(x, h.Type, h.Recv, hinfo)
+			val := Subst(hinfo, hbody, sends[0].Value, bind)
+			lit, _ := ast.Unparen(val).(*ast.CompositeLit)
+			addEnq(&Enq{Stmt: sends[0], Call: x, Field: map[string]ast.Expr{}}, x, lit, func(v ast.Expr) ast.Expr { return v })
+		}
 		return true
 	})
 	if bad {
